@@ -252,10 +252,9 @@ def decode (bs : Bytes) : Except DErr (Item × Nat) :=
 def isNaN32 (b : Nat) : Bool := (b / 8388608) % 256 == 255 && b % 8388608 != 0
 def isNaN64 (b : Nat) : Bool := (b / 4503599627370496) % 2048 == 2047 && b % 4503599627370496 != 0
 
-def floatBitsEq (w : FWidth) (a b : Nat) : Bool :=
-  match w with
-  | .f4 => (isNaN32 a && isNaN32 b) || a == b
-  | .f8 => (isNaN64 a && isNaN64 b) || a == b
+/-- `equalFloat` compares bit patterns (F4: the float32-narrowed pattern both sides would transmit):
+    a NaN equals exactly the NaN with the same payload, +0 and −0 differ. -/
+def floatBitsEq (_w : FWidth) (a b : Nat) : Bool := a == b
 
 def listAll2 {α} (f : α → α → Bool) : List α → List α → Bool
   | [], [] => true
@@ -263,8 +262,7 @@ def listAll2 {α} (f : α → α → Bool) : List α → List α → Bool
   | _, _ => false
 
 mutual
-/-- `secs2.Equal` on error-free items: same type, size and every element; NaN equals NaN,
-    +0 and −0 differ (bit patterns). -/
+/-- `secs2.Equal` on error-free items: same type, size and every element (floats by bit pattern). -/
 def equalItem : Item → Item → Bool
   | .empty, .empty => true
   | .list as, .list bs => equalItems as bs
